@@ -3,6 +3,7 @@
  * at and around every phase boundary, on a uniform grid, before the start and after the end are logged
  * in increasing time order. */
 #include <stdio.h>
+#include <stdint.h>
 #include <stdlib.h>
 #include <string.h>
 #include "a/trajtrap.h"
@@ -77,8 +78,29 @@ int main(int argc, char **argv)
     static char line[1 << 12];
     long v[32];
     double ts[128];
-    while (fgets(line, sizeof(line), fi))
+    long nrand = argc > 4 ? atol(argv[4]) : 0; /* seeded random feasible integer requests from much wider ranges */
+    uint64_t rs = 0x9E3779B97F4A7C15ull ^ ((argc > 5 ? strtoull(argv[5], 0, 10) : 1) * 1000003ull);
+    for (;;)
     {
+        if (!fgets(line, sizeof(line), fi))
+        {
+            if (nrand-- <= 0) { break; }
+#define RND(n) ((long)((rs ^= rs << 13, rs ^= rs >> 7, rs ^= rs << 17, rs >> 24) % (uint64_t)(n)))
+            if (nrand % 2)
+            {
+                long vm = 1 + RND(20), a = 1 + RND(15), d = 1 + RND(15), p = 1 + RND(200), v0 = RND(vm + 1), v1 = RND(vm + 1), dir = RND(2) ? 1 : -1, sv = RND(4) ? 1 : -1;
+                snprintf(line, sizeof(line), "[1010101,[%ld,%ld,%ld,%ld,%ld,%ld,%ld]]", vm, dir * a, -dir * d, 1L, 1 + dir * p, dir * sv * v0, dir * v1);
+            }
+            else
+            {
+                long jm = 1 + RND(20), am = 1 + RND(15), vm = 1 + RND(20), p = 1 + RND(300), v0 = RND(vm + 1), v1 = RND(vm + 1), dir = RND(2) ? 1 : -1;
+                long dv = v1 > v0 ? v1 - v0 : v0 - v1;
+                /* the feasibility condition of the specification (TrajMC.BellFeasible) */
+                int feas = dv * jm < am * am ? p * p * jm >= dv * (v0 + v1) * (v0 + v1) : 2 * p * jm * am >= (v0 + v1) * (am * am + dv * jm);
+                if (!feas) { continue; }
+                snprintf(line, sizeof(line), "[1020202,[%ld,%ld,%ld,%ld,%ld,%ld,%ld]]", jm, am, vm, 2L, 2 + dir * p, dir * v0, dir * v1);
+            }
+        }
         int trap = strstr(line, "1010101") != NULL, bell = strstr(line, "1020202") != NULL;
         if (!trap && !bell) { continue; }
         if (is_dup(line)) { ++n_dups; continue; }
